@@ -26,7 +26,14 @@ for p in props:
         evidence_file=f"/verif/evidence/{pid}.json",
         replay_cmd_template=f"./check {pid} --replay {{path}}",
         engine="akv",
-        level_claimed=dict(category=ns["LEVEL"], text=ns.get("LEVEL_TEXT", ns["RULE"]), design_ref=f"DESIGN.md section 3 {pid}"),
+        level_claimed=dict(category=ns["LEVEL"],
+                           text=("Bounded generated-input search (property-based testing with Hypothesis; %s cases per quick run, %s per thorough run, "
+                                 "sharded over 16 processes, a pure function of VERIF_SEED) decided against an explicit oracle; it finds violations "
+                                 "and shrinks them to a JSON replay file, it never proves absence. This is the right level because the property "
+                                 "quantifies over inputs / configurations / schedules / fault sites that a generator can construct and for which "
+                                 "an executable oracle exists. What is generated and what the oracle is: " % (ns["BUDGET"]["quick"], ns["BUDGET"]["thorough"]))
+                                + ns["RULE"],
+                           design_ref=f"DESIGN.md section 3 {pid} (revisions in section 6b)"),
         level_note=ns.get("LEVEL_NOTE", "; ".join(ns.get("ASSUMPTIONS", []))),
         technique=ns.get("TECHNIQUE", "property-based testing (Hypothesis) against an independent reference reader/model"),
     ))
